@@ -42,6 +42,17 @@ CLAIMED["C19"] = dict(
     note="Trusted: Lean kernel and standard axioms; model validated by sampling; assumed of `random`: random() >= 0 and randint within "
          "bounds; OS r+b file semantics, recwalk and argparse exercised not modelled.")
 
+CLAIMED["C10"] = dict(
+    text="Kernel-checked theorems over a model of the block loops of both tools (stream_compute_ecc_hash / stream_entry_assemble, "
+         "compute_ecc_hash / entry_assemble) with an UNINTERPRETED offset->message-length function: the generation partition tiles the "
+         "protected region exactly once, the partition read back from the generated track is identical and pairs every block with its own "
+         "hash and parity, the track is the concatenation of hash+parity; staged rule as a definitional theorem. The float rounding of the "
+         "published rule is compared (Lean Float model vs compute_ecc_params/feature_scaling, bit-for-bit) over an exhaustive "
+         "max_block_size x rate grid - a test, labelled as such. Real loops run with stub codec/hasher for the sweep over sizes.",
+    design="§6 C10", technique="Lean 4 proof (induction on the block loops, arbitrary message-length function) + model/implementation correspondence sweep",
+    note="Trusted: Lean kernel and standard axioms; model validated by the sweep; IEEE-754 rounding validated not proved (theorems do not "
+         "depend on it); well-formedness (message length >= 1, hash+parity >= 1 per block) is an explicit hypothesis.")
+
 NOT_YET = {}
 
 props = [json.loads(l) for l in open(os.path.join(VERIF, "properties.jsonl"))]
